@@ -18,6 +18,7 @@ import LncModel.Noise
 import LncModel.Session
 import LncModel.Stack
 import LncModel.KaTrace
+import LncModel.Relay
 /-
   Line-protocol driver: one operation per input line, one canonical result per
   output line.  Imports model files only (no Mathlib, no proofs) so it links as
@@ -134,8 +135,33 @@ def kaTrace (strict p q t0 : String) (obs : List String) : String :=
       s!"FAIL observations {repr g} (group {i}) are not a step of the keepalive model from any of {repr ks}"
   | _, _, _, _, _ => "bad-op"
 
+open Lnc.Mailbox.Relay in
+/-- `relay.run <send calls> <recv tries>`: send calls are comma separated, one string of attempt
+    outcomes each (o ok, l acknowledged and lost, q failed but queued, f failed), payload of call i is
+    the byte i+1; the receive attempts (o ok, t failed after the relay took the head, f failed) are one
+    flat string, cut into calls after every `o`. All sends come first. -/
+def relayRun (sends recvs : String) : String :=
+  let sendTry (c : Char) : Option SendTry :=
+    if c = 'o' then some .ok else if c = 'l' then some .okLost else if c = 'q' then some (.fail true)
+    else if c = 'f' then some (.fail false) else none
+  let recvTry (c : Char) : Option RecvTry :=
+    if c = 'o' then some .ok else if c = 't' then some (.fail true) else if c = 'f' then some (.fail false) else none
+  match (sends.splitOn ",").mapM (fun call => call.toList.mapM sendTry), recvs.toList.mapM recvTry with
+  | some calls, some rtries =>
+    let sendOps : List Op := calls.zipIdx.map fun (tries, i) => Op.send [UInt8.ofNat (i + 1)] tries
+    -- cut the receive attempts into calls: each call ends with its first `ok`
+    let (callsR, cur) := rtries.foldl (fun (acc : List (List RecvTry) × List RecvTry) t =>
+      match t with
+      | .ok => (acc.1 ++ [acc.2 ++ [t]], [])
+      | _ => (acc.1, acc.2 ++ [t])) ([], [])
+    let recvOps : List Op := (callsR ++ [cur]).map Op.recv
+    let st := run St.init (sendOps ++ recvOps)
+    if st.got.isEmpty then "none" else ",".intercalate (st.got.map fun b => toString (b.headD 0).toNat)
+  | _, _ => "bad-op"
+
 def pureStep (toks : List String) : String :=
   match toks with
+  | ["relay.run", sends, recvs] => relayRun sends recvs
   | "ka.trace" :: strict :: p :: q :: t0 :: obs => kaTrace strict p q t0 obs
   | ["gbn.deser", hex] =>
     match bytesOfHex hex with
